@@ -21,6 +21,9 @@ Absent == [ver |-> 0, mt |-> 0]
 \* macros defined by each content version; version 3 is an XML document
 MacrosOf(v) == CASE v = 1 -> {"m1", "m2"} [] v = 2 -> {"m2", "m3"} [] OTHER -> {}
 CTypeOf(v) == IF v = 3 THEN "text/xml" ELSE "text/html"
+\* version 4 does not compile (a language error): every use of the template raises until the file is repaired --
+\* it never falls back to an earlier version
+Broken(v) == v = 4
 
 VARIABLES files, clock, tpls, reg, hist, files0
 vars == <<files, clock, tpls, reg, hist, files0>>
@@ -55,7 +58,9 @@ Checked(t) ==
   LET f == files[<<t.d, t.n>>]
       stale == t.auto /\ f.mt # t.last
       t1 == IF stale THEN [t EXCEPT !.last = f.mt, !.cooked = FALSE] ELSE t
-  IN IF ~t1.cooked
+  IN IF ~t1.cooked /\ Broken(f.ver)
+     THEN [t1 EXCEPT !.cooks = t.cooks + 1]          \* the attempt fails; the template stays uncooked
+     ELSE IF ~t1.cooked
      THEN [t1 EXCEPT !.cooked = TRUE, !.ver = f.ver, !.cooks = t.cooks + 1,
                      !.macros = IF "StaleMacros" \in Dev THEN t.macros \cup MacrosOf(f.ver) ELSE MacrosOf(f.ver),
                      \* which version each known macro renders
@@ -77,14 +82,14 @@ Render(t) ==
   /\ Usable(t)
   /\ LET c == Checked(tpls[t]) IN
      /\ tpls' = [tpls EXCEPT ![t] = c]
-     /\ Op([op |-> "render", t |-> t, ver |-> c.ver, ctype |-> CTypeOf(c.ver), cooks |-> c.cooks])
+     /\ Op([op |-> "render", t |-> t, ver |-> c.ver, ctype |-> CTypeOf(c.ver), cooks |-> c.cooks, err |-> ~c.cooked])
   /\ UNCHANGED <<files, clock, reg>>
 
 Macros(t) ==
   /\ Usable(t)
   /\ LET c == Checked(tpls[t]) IN
      /\ tpls' = [tpls EXCEPT ![t] = c]
-     /\ Op([op |-> "macros", t |-> t, names |-> c.macros, cooks |-> c.cooks])
+     /\ Op([op |-> "macros", t |-> t, names |-> c.macros, cooks |-> c.cooks, err |-> ~c.cooked])
   /\ UNCHANGED <<files, clock, reg>>
 
 UseMacro(t, m) ==
@@ -92,7 +97,7 @@ UseMacro(t, m) ==
   /\ LET c == Checked(tpls[t]) IN
      /\ tpls' = [tpls EXCEPT ![t] = c]
      /\ Op([op |-> "usemacro", t |-> t, m |-> m, found |-> m \in c.macros,
-            ver |-> IF m \in c.macros THEN c.mver[m] ELSE 0])
+            ver |-> IF m \in c.macros THEN c.mver[m] ELSE 0, err |-> ~c.cooked])
   /\ UNCHANGED <<files, clock, reg>>
 
 \* the loader: first match along the search path, same instance for the same name
